@@ -1,0 +1,33 @@
+//! Verification-only re-exports, compiled only with the `__verif` feature.
+//! Thin wrappers: no logic of their own.
+use std::ops::Bound;
+
+use crate::ir::FieldValue;
+
+use super::{CandidateValue, Range};
+
+pub fn candidate_intersect(a: &mut CandidateValue<FieldValue>, b: CandidateValue<FieldValue>) {
+    a.intersect(b)
+}
+pub fn candidate_normalize(a: &mut CandidateValue<FieldValue>) {
+    a.normalize()
+}
+pub fn candidate_exclude_single_value(a: &mut CandidateValue<FieldValue>, v: &FieldValue) {
+    a.exclude_single_value(v)
+}
+pub fn range_new(
+    start: Bound<FieldValue>,
+    end: Bound<FieldValue>,
+    null_included: bool,
+) -> Range<FieldValue> {
+    Range::new(start, end, null_included)
+}
+pub fn range_with_start(start: Bound<FieldValue>, null_included: bool) -> Range<FieldValue> {
+    Range::with_start(start, null_included)
+}
+pub fn range_with_end(end: Bound<FieldValue>, null_included: bool) -> Range<FieldValue> {
+    Range::with_end(end, null_included)
+}
+pub fn range_intersect(a: &mut Range<FieldValue>, b: Range<FieldValue>) {
+    a.intersect(b)
+}
